@@ -20,6 +20,7 @@ import contextlib
 import errno
 import mmap
 import os
+import tokenize
 
 import numpy as np
 
@@ -81,7 +82,10 @@ class NpyFileChunkStore(ChunkStore):
     """
 
     def __init__(self, path, direct_write=False):
-        super().__init__({IOError: ChunkNotFound, ValueError: ChunkNotFound})
+        # An undecodable chunk file is as good as missing. Besides ValueError, np.load raises EOFError
+        # on an empty file and lets SyntaxError / tokenize.TokenError out of its header parser.
+        super().__init__({IOError: ChunkNotFound, ValueError: ChunkNotFound, EOFError: ChunkNotFound,
+                          SyntaxError: ChunkNotFound, tokenize.TokenError: ChunkNotFound})
         if not os.path.isdir(path):
             raise StoreUnavailable(f'Directory {path!r} does not exist')
         self.path = path
